@@ -43,7 +43,10 @@ func c19Values() []string {
 }
 
 func c19IDs() []string {
-	return []string{"0", "1", "-1", "9007199254740992", "-9007199254740992", "9007199254740993", "-9007199254740993", "9223372036854775807", "-9223372036854775808", `""`, `"a"`, `"ü"`, `"\u0000"`, `"1"`, `"null"`}
+	return []string{"0", "1", "-1", "9007199254740992", "-9007199254740992", "9007199254740993", "-9007199254740993", "9223372036854775807", "-9223372036854775808", `""`, `"a"`, `"ü"`, `"\u0000"`, `"1"`, `"null"`,
+		// other legal JSON spellings of strings, as foreign encoders produce them: an escaped solidus (PHP),
+		// a surrogate pair and \u escapes for non-ASCII (ASCII-only encoders), the remaining short escapes
+		`"a\/b"`, `"req\/7=="`, `"\ud83d\ude00"`, `"\uD83D\uDE00-x"`, `"caf\u00e9"`, `"t\tn\nq\"b\\f\fr\rb\b"`, `"😀"`}
 }
 
 func c19JSONEqual(a, b []byte) bool {
